@@ -3,7 +3,7 @@ brute-force property oracle (Python, independent of the model) on the implementa
 import itertools
 
 from .. import gen
-from ..common import cnat, cbool, clist, copt, coq_eval, CoqEvalError
+from ..common import cnat, cbool, clist, copt, coq_eval, safe_coq_eval, CoqEvalError
 from ..impl import Impl
 
 IMPORTS = ['Base.Util', 'Model.Bfs', 'Model.Structure', 'Model.Cycles', 'Gen.CyclesCode']
@@ -492,7 +492,7 @@ def run(ctx, scratch):
                 got = {'ok': v['cycles']}
             else:
                 got = {'ok': sorted(tuple(e) for e in v['matrix']['edges'])}
-        exp = mo
+        exp = mo if mo is not None else {}     # {} : block of a dead model (no 'ok' / 'err' key: the refinements below skip)
         same = got == exp
         if k == 'cyc' and 'ok' in got and 'ok' in exp:
             d = a['directed'] if a['directed'] is not None else not mt['sym']
@@ -510,7 +510,7 @@ def run(ctx, scratch):
             ctx.violation(site, 'implementation differs from the model (%s)' % fam, case=a, expected=exp, observed=got,
                           check='model', family=fam)
         if i % 1500 == 0:
-            ctx.sample(dict(kind=k, family=fam, args=a, model=exp, impl=got))
+            ctx.sample(dict(kind=k, family=fam, args=a, model=mo, impl=got))
         # ---------- property oracle on the implementation's output
         if fam.startswith('malformed'):
             continue
@@ -620,7 +620,8 @@ def run(ctx, scratch):
                   weights='fractional')
     ctx.extra['oracle_contract_checks'] = contract_checked
     ctx.extra['set_order_cases_dropped_from_model_diff'] = ctx.margin_dropped
-    variant = coq_eval('c12var', IMPORTS, ['bc_und_visits_other_components'])[0]
+    variant = safe_coq_eval(ctx, 'c12var', IMPORTS, ['bc_und_visits_other_components'])      # informational only
+    variant = variant[0] if variant is not None else None
     ctx.extra['model_variant'] = {'bc_und_visits_other_components (Gen/CyclesCode.v, re-extracted from cycles.py)': variant}
     ctx.notes.append('proved for all inputs (model): is_bipartite sound/complete/total, is_connected, largest component, '
                      'is_acyclic directed and undirected (forest_iff_count), get_cycles sound / complete (directed) / empty iff '
